@@ -181,6 +181,74 @@ func sweep(o *common.Opts, dbs int) (probes int, note string) {
 	return probes, ""
 }
 
+// pipelined: the selection and the commands that depend on it arrive in one piece, as connection pools send them
+// (SELECT n, then work, without waiting for the +OK). Each command must see the selection made by the one before it.
+func pipelined(o *common.Opts, dbs int) (probes int, note string) {
+	srv, err := startServer(o, dbs, false, fmt.Sprintf("pipe%d", dbs))
+	if err != nil {
+		return 0, "server start failed: " + err.Error()
+	}
+	defer srv.Kill()
+	r := rand.New(rand.NewSource(o.Seed*977 + int64(dbs)))
+	for round := 0; round < 24; round++ {
+		c, err := respc.Dial(srv.Addr, 10*time.Second)
+		if err != nil {
+			return probes, "dial failed"
+		}
+		// a few PINGs first, so that the batch is not the first thing the connection's loop reads
+		var buf []byte
+		nping := r.Intn(7)
+		for i := 0; i < nping; i++ {
+			buf = append(buf, respc.EncodeCommand(respc.Cmd("PING"))...)
+		}
+		hops := 1 + r.Intn(3)
+		type step struct {
+			db  int
+			key string
+		}
+		var steps []step
+		for h := 0; h < hops; h++ {
+			db := r.Intn(dbs)
+			key := fmt.Sprintf("pipe:%d:%d:%d", dbs, round, h)
+			steps = append(steps, step{db, key})
+			buf = append(buf, respc.EncodeCommand(respc.Cmd("SELECT", strconv.Itoa(db)))...)
+			buf = append(buf, respc.EncodeCommand(respc.Cmd("SET", key, fmt.Sprintf("v%d", h)))...)
+			buf = append(buf, respc.EncodeCommand(respc.Cmd("GET", key))...)
+		}
+		if round%2 == 0 {
+			_ = c.SendRaw(buf)
+		} else {
+			cut := 1 + r.Intn(len(buf)-1)
+			_ = c.SendRaw(buf[:cut])
+			time.Sleep(time.Duration(r.Intn(3)) * time.Millisecond)
+			_ = c.SendRaw(buf[cut:])
+		}
+		ok := true
+		for i := 0; i < nping+3*hops; i++ {
+			if _, err := c.RecvTimeout(10 * time.Second); err != nil {
+				report(witness{Kind: "select", Detail: fmt.Sprintf("databases=%d: a pipeline of %d PING and %d x (SELECT, SET, GET) got %d replies, then %v", dbs, nping, hops, i, err), Sig: "select|pipelined: reply missing"})
+				ok = false
+				break
+			}
+		}
+		c.Close()
+		if !ok {
+			continue
+		}
+		for _, st := range steps {
+			got, err := whereIs(srv.Addr, dbs, st.key)
+			if err != nil {
+				return probes, "locating the probe failed: " + err.Error()
+			}
+			probes++
+			if len(got) != 1 || got[0] != st.db {
+				report(witness{Kind: "select", Detail: fmt.Sprintf("databases=%d: one write carried %d PING and %d x (SELECT n, SET k, GET k); the SET after SELECT %d put %s into databases %v", dbs, nping, hops, st.db, st.key, got), Sig: "select|pipelined: write landed in another database"})
+			}
+		}
+	}
+	return probes, ""
+}
+
 func tail(t []string) []string {
 	if len(t) > 12 {
 		return append([]string{}, t[len(t)-12:]...)
@@ -481,6 +549,14 @@ func main() {
 			note = n
 		}
 	}
+	pipeProbes := 0
+	for _, dbs := range []int{2, 16} {
+		p, n := pipelined(o, dbs)
+		pipeProbes += p
+		if n != "" {
+			note = n
+		}
+	}
 	fsRounds, fsNote := firstSelect(o)
 	if fsNote != "" {
 		note = fsNote
@@ -568,13 +644,14 @@ func main() {
 			"samples":                    []any{"SELECT \"01\" then SET probe -> located in exactly one database", "c3 SELECT 5; c3 SET k c3:d5:s17; c1 SELECT 2; c3 GET k -> must carry d5"},
 			"cluster_mode_select_probes": clProbes,
 			"simultaneous_first_selections_of_an_index": fsRounds,
-			"select_probes":         probes,
-			"concurrent_histories":  histories,
-			"concurrent_operations": opsDone,
-			"database_hops":         hops,
-			"race_reports":          raceReports,
-			"known_finding_hits":    knownHits,
-			"violation_samples":     vs,
+			"probes_after_pipelined_selections":         pipeProbes,
+			"select_probes":                             probes,
+			"concurrent_histories":                      histories,
+			"concurrent_operations":                     opsDone,
+			"database_hops":                             hops,
+			"race_reports":                              raceReports,
+			"known_finding_hits":                        knownHits,
+			"violation_samples":                         vs,
 		},
 		Assumptions: []string{"\"+1\", \"01\" and space-padded indexes are an open corner (accepted as that index or refused)", "TCP against the real binary; the race build is used in the thorough tier"}}
 	if note != "" {
